@@ -11,7 +11,7 @@ L& = 2147483647
 I% = -32768
 Q! = 2.5
 PRINT S15$ ;
-PRINT CR$
+PRINT 5 , S14$
 PRINT , "|"
 LPRINT , "|"
 PRINT #1, , "|"
